@@ -131,16 +131,31 @@ impl Number {
         // Rational32::from_str_radix reduces in 32 bits and overflows on spellings such as
         // -2147483648/-1: read the ratio in arbitrary precision and narrow the reduced result.
         let num = BigRational::from_str_radix(text, radix).ok()?;
+        Some(Self::from_big_rational(num))
+    }
+
+    /// From Big Rational
+    ///
+    /// The most appropriate Number for an exact value: an integer as it is, a ratio
+    /// whose reduced parts fit 32 bits as a rational, anything else as the nearest float.
+    pub(crate) fn from_big_rational(num: BigRational) -> Number {
         if num.is_integer() {
             return match num.to_i64() {
-                Some(num) => Some(num.into()),
-                None => Some(num.to_integer().into()),
+                Some(num) => num.into(),
+                None => num.to_integer().into(),
             };
         }
         match (num.numer().to_i32(), num.denom().to_i32()) {
-            (Some(numer), Some(denom)) => Some(Rational32::new_raw(numer, denom).into()),
-            _ => Some(num.to_f64().unwrap_or(f64::NAN).into()),
+            (Some(numer), Some(denom)) => Rational32::new_raw(numer, denom).into(),
+            _ => num.to_f64().unwrap_or(f64::NAN).into(),
         }
+    }
+
+    /// Is Exact
+    ///
+    /// True for every representation but a float.
+    pub(crate) fn is_exact(&self) -> bool {
+        !matches!(self, Number::Float(_))
     }
 
     pub fn to_usize(&self) -> Option<usize> {
@@ -400,7 +415,7 @@ impl Eq for Number {}
 impl Number {
     /// The value as an arbitrary-precision rational: exact for every
     /// representation, None for NaN and the infinities.
-    fn to_big_rational(&self) -> Option<BigRational> {
+    pub(crate) fn to_big_rational(&self) -> Option<BigRational> {
         match self {
             Number::Fixnum(num) => Some(BigRational::from_integer(BigInt::from(*num))),
             Number::BigInt(num) => Some(BigRational::from_integer((**num).clone())),
